@@ -59,6 +59,7 @@ def decide(ctx, solver, assume, post, max_refine=12):
     try:
         solver.add(ctx.side)
         solver.add(z3.Not(post))
+        before = list(solver.assertions())  # read before check(): z3 may hand back internal skolems (mod!N) afterwards
         r = solver.check()
         if r == z3.unsat:
             return "unsat", None
@@ -66,7 +67,7 @@ def decide(ctx, solver, assume, post, max_refine=12):
             # second back end: the same assertions in fixed-width bit-vector arithmetic (exact for
             # bounded integers; see lib/bvquery.py).  Only its `unsat` is used as a verdict.
             import bvquery
-            st, info = bvquery.check_bv(list(solver.assertions()), timeout_ms=int(solver_timeout_ms()))
+            st, info = bvquery.check_bv(before, timeout_ms=int(solver_timeout_ms()))
             if st == "unsat":
                 return "unsat", None
             return "unknown", f"z3/LIA: {solver.reason_unknown()}; bit-vector back end: {st} {info if st != 'sat' else '(model not used)'}"
